@@ -140,7 +140,7 @@ func refAllowed(mode string, token bool, tokenHost string, hosts []string, user 
 func c03(env *Env, rep *Report) {
 	rep.Rule = "product of host-selection modes {any, signed, roundrobin, unsigned, \"\", bogus} x token auth {off, on with token host = each candidate} x 4 host lists (plain, with user placeholder, IPv6 literal, entry without port) x users {\"\", alice, bob, alice-host, bob$1, a$$b, ${x}y} x ~90 channel requests derived from every list entry " +
 		"(exact, without terminator, ports +-1/0/65535, name carrying :port, one/two/embedded NULs, every proper prefix, one-character extensions and prefixes, suffixes, superstring, upper case, another user's substituted entry, bracketed / IPv6 / zone forms, surrogate pairs, lone surrogates, odd length, length field shorter/longer/0xFFFF/0, resource counts 0/2, alternates 1). " +
-		"Plus two-user histories (user A then user B, 5 tunnels one after the other on the same gateway process, list and token modes): a user must still reach its own substituted entry and never another user's. Plus schedules: two tunnels whose real tokens (for different hosts) are verified by the real security.CheckPAACookie at the same time, the userinfo round trip being a scheduling point, one of them asking for the other's host (deviation bound 2, thorough 3). Each case is one execution of the real Processor with the real security.CheckSession/CheckHost wired as main.go does, all dials observed by the network shim. Oracle: reference policy over an independent UTF-16 decoding; allowed well-formed request => exactly one dial to JoinHostPort(name,port) and status 0; refused => E_PROXY_RAP_ACCESSDENIED, zero dials to any address; malformed => dials only to allowed addresses. distinct_nontrivial = distinct cases."
+		"Plus two-user histories (user A then user B, 5 tunnels one after the other on the same gateway process, list and token modes): a user must still reach its own substituted entry and never another user's. Plus a legacy tunnel whose RDG_OUT_DATA and RDG_IN_DATA requests are authenticated as different users (the tunnel belongs to the one that created it). Plus schedules: two tunnels whose real tokens (for different hosts) are verified by the real security.CheckPAACookie at the same time, the userinfo round trip being a scheduling point, one of them asking for the other's host (deviation bound 2, thorough 3). Each case is one execution of the real Processor with the real security.CheckSession/CheckHost wired as main.go does, all dials observed by the network shim. Oracle: reference policy over an independent UTF-16 decoding; allowed well-formed request => exactly one dial to JoinHostPort(name,port) and status 0; refused => E_PROXY_RAP_ACCESSDENIED, zero dials to any address; malformed => dials only to allowed addresses. distinct_nontrivial = distinct cases."
 	rep.Assumptions = append(rep.Assumptions,
 		"host names are compared byte-exact; a letter-case variant of an allowed name is classified unspecified and not judged",
 		"cookie acceptance is simulated by the table checker which sets token host / user exactly as security.CheckPAACookie does (C02 covers the JWT path)",
@@ -336,6 +336,52 @@ func c03(env *Env, rep *Report) {
 					if v != "" {
 						rep.violate("C03/"+v+"/"+mode+"/two-users", fmt.Sprintf("mode=%s token=%v first user %s then user %s: %s", mode, token, u1, u2, d), map[string]any{"noreplay": true})
 					}
+				}
+			}
+		}
+	}
+	// a legacy tunnel whose two requests carry different users (each request is authenticated on its own): the
+	// tunnel belongs to the user of the request that created it (RDG_OUT_DATA); what the other request's user may
+	// reach does not matter
+	if env.Shard == 0 || env.NShards == 1 {
+		for _, mode := range []string{"roundrobin", "unsigned"} {
+			for _, ask := range []string{"alice", "bob"} {
+				distinct++
+				var st uint32 = 0xFFFFFFFF
+				var dials []string
+				x := vsched.Run(nil, 40000, false, nil, func() {
+					w := NewWorld()
+					w.Accept = func(string) bool { return true }
+					gw := NewGateway(GwCfg{TokenAuth: false, HostSelection: mode, Hosts: []string{"my-{{ preferred_username }}-host:3389"}, VerifyIP: true})
+					h := handlerOf(gw)
+					w.InIdentity = NewIdentity("bob", "10.0.0.1", "10.0.0.1:50001")
+					c, ok := w.OpenTunnel("legacy", h, gw, "conn-1", "10.0.0.1:50000", NewIdentity("alice", "10.0.0.1", "10.0.0.1:50000"), nil)
+					if !ok {
+						return
+					}
+					for _, p := range [][]byte{tsgu.Handshake(1, 0, 0, 0), tsgu.TunnelCreate("", false), tsgu.TunnelAuth("pc"), tsgu.ChannelCreate("my-"+ask+"-host", 3389)} {
+						c.SendSegment(p)
+						vsched.WaitIdle()
+					}
+					c.Absorb()
+					if pk := c.NewPackets(); len(pk) > 0 {
+						st = tsgu.ParseResp(pk[len(pk)-1]).Status
+					}
+					for _, d := range w.Net.Dials {
+						dials = append(dials, d.Address)
+					}
+					c.CloseClient()
+				})
+				rep.add("executions", 1)
+				rep.add("transitions", int64(x.Steps))
+				x.Finish()
+				rep.outcome(fmt.Sprintf("legacy-two-users mode=%s ask=%s status=%#x dials=%d", mode, ask, st, len(dials)))
+				what := fmt.Sprintf("mode=%s: legacy tunnel opened by alice (RDG_OUT_DATA), RDG_IN_DATA request authenticated as bob, channel to my-%s-host: status %#x, dials %v", mode, ask, st, dials)
+				if ask == "bob" && (st == 0 || len(dials) > 0) {
+					rep.violate("C03/dial-for-refused-host/"+mode+"/legacy-requests-of-two-users", what, map[string]any{"noreplay": true})
+				}
+				if ask == "alice" && (st != 0 || len(dials) != 1 || dials[0] != "my-alice-host:3389") {
+					rep.violate("C03/allowed-host-not-dialled-exactly/"+mode+"/legacy-requests-of-two-users", what, map[string]any{"noreplay": true})
 				}
 			}
 		}
